@@ -52,7 +52,10 @@ RULE = (
     "descriptor re-created in between, per codec x container; special matrix sequences: NO record (header-only stream / "
     "empty Avro container), exactly one record, and (stream) one type NAME standing for a base, two extended and a projected "
     "field list in base-first / extended-first / interleaved order + identifier-coincident pairs, through every codec and "
-    "route; two files in which one FIELD NAME has different types (datetime vs varint / float / filesize / string, values "
+    "route; one reader consumed in pieces (peek / islice batches / break / handled exception, then iterated again) per codec x "
+    "container and for jsonl / csv; file objects (buffered, FileIO, named BytesIO) whose NAME extension and CONTENT codec "
+    "disagree (content decides); PathTemplateWriter / RecordArchiver outputs per codec (every file complete for the "
+    "independent decompressor and CLI after close(), holds a stream, all records once); two files in which one FIELD NAME has different types (datetime vs varint / float / filesize / string, values "
     "above 2**32) read by one process in both orders, sequentially or with both readers open (avro, jsonfile compared with "
     "what was written; csvfile, sqlite with what a fresh child process reads from that file alone); thorough: 12 matrix sequences up to 25000 records, more "
     "hostile names, 4 repetitions of the in-process kinds, 400-step handle turn-over (stream: observe.normalise(obs) equality; avro: the C19 comparison, "
@@ -88,6 +91,7 @@ ASSUMPTIONS = [
     "('Unpack failed: incomplete input': zstandard's stream_reader is handed to the record reader unbuffered and returns short "
     "at a frame end); files written by flow.record are single-frame, so this is not generated (reported to the lead)",
     "doubly compressed input: a refusal with zero records (HEAD) or exactly the records are both accepted",
+    "the sqlite reader starts over on every iteration (HEAD), so the consumed-in-pieces histories leave it out",
     "raw objects deliver full reads (as io.FileIO does); objects whose first read returns fewer bytes than the magic depth are "
     "not generated (reported to the lead as candidate finding sniff-single-peek-short-read)",
 ]
@@ -306,6 +310,36 @@ def generate(ctx):
             if ctx.mine(idx):
                 yield {"k": "text-ext", "ext": ext, "n": n, "s": subseed("c11", ctx.seed, "text", ext, "n", n)}
             idx += 1
+    # round 8: one reader consumed in pieces; file objects whose name and content disagree; time-templated writers
+    j = 0
+    for codec in CODECS:
+        for container in CONTAINERS:
+            for pattern in am.USAGE_PATTERNS:
+                j += 1
+                if ctx.mine(idx):
+                    yield {"k": "reader-usage", "codec": codec, "container": container, "pattern": pattern, "size": ("small", "multi")[j % 2],
+                           "via": ("path", "fileobj")[(j // 2) % 2], "s": subseed("c11", ctx.seed, "usage", codec, container, pattern)}
+                idx += 1
+    for ext in (".jsonl", ".csv"):
+        for pattern in am.USAGE_PATTERNS:
+            if ctx.mine(idx):
+                yield {"k": "reader-usage", "codec": "none", "container": ext, "pattern": pattern, "size": "small", "s": subseed("c11", ctx.seed, "usage", ext, pattern)}
+            idx += 1
+    for content in ("none", "gz", "bz2", "lz4", "zst"):
+        for name_ext in ("", ".gz", ".bz2", ".lz4", ".zst", ".zstd"):
+            if name_ext.lstrip(".") == content or (content == "zst" and name_ext == ".zstd") or (content == "none" and name_ext == ""):
+                continue
+            for container in CONTAINERS:
+                if ctx.mine(idx):
+                    yield {"k": "name-mismatch", "content": content, "name_ext": name_ext, "container": container,
+                           "s": subseed("c11", ctx.seed, "mismatch", content, name_ext, container)}
+                idx += 1
+    for codec in CODECS:
+        for cls in ("PathTemplateWriter", "RecordArchiver"):
+            for shape in ("two-hours", "three-hours", "back-and-forth", "many"):
+                if ctx.mine(idx):
+                    yield {"k": "template-writer", "codec": codec, "cls": cls, "shape": shape, "s": subseed("c11", ctx.seed, "template", codec, cls, shape)}
+                idx += 1
     # cross-file reader state: the same FIELD NAME with different types in two files read by one process
     for adapter in sources_c11.CROSS_ADAPTERS:
         for other in sources_c11.CROSS_TYPES:
@@ -553,6 +587,12 @@ def execute(ctx, case):
         return sources_c11.execute_turnover(ctx, case)
     if case["k"] == "names":
         return sources_c11.execute_names(ctx, case)
+    if case["k"] == "reader-usage":
+        return sources_c11.execute_reader_usage(ctx, case)
+    if case["k"] == "name-mismatch":
+        return sources_c11.execute_name_mismatch(ctx, case)
+    if case["k"] == "template-writer":
+        return sources_c11.execute_template_writer(ctx, case)
     if case["k"] == "cross-file":
         return sources_c11.execute_cross_file(ctx, case)
     if case["k"] == "frame-size":
